@@ -330,6 +330,16 @@ end Glue
 def handle (args : List String) : Option String :=
   match args with
   | "is.glue" :: goClasses :: goAnswers :: nArch :: rest => some (Glue.handle goClasses goAnswers nArch rest)
+  | ["is.key", alg, digLen, hasBlock, cls, ver] =>
+    -- sign.RSAVerifyDigest on one key file; the libraries' answers for that file are given
+    let a : Alg := if alg == "256" then .sha256 else .sha1
+    let L : KeyLib := {
+      pemDecodeFirst := fun _ => if hasBlock == "1" then some ['b'] else none,
+      parsePKIX := fun _ => if cls == "rsa" then some (some ['k']) else if cls == "notrsa" then some none else none,
+      verifyPKCS1v15 := fun _ _ _ _ => ver == "1",
+      hashSize := fun | .sha1 => 20 | .sha256 => 32 }
+    let r := if rsaVerifyDigest L ['f'] a (List.replicate digLen.toNat! 'd') ['s'] then "ok" else "err"
+    some (r ++ "\t" ++ r ++ "\t-")
   | ["is.check", ign, nosig, url, arch] =>
     let o := parseOpts ign nosig
     let impl := toString (checkOn o (unx url) (unx arch))
